@@ -254,6 +254,9 @@ def _stuck_msg(text):
     goroutine that is not parked in an accepted wait)"""
     if "read:chan_send" in text or ("chan_send" in text and "readLoop" in text):
         return F37_MSG
+    if "serve:sync.Mutex.Lock" in text and "setError" not in text:
+        return ("serve() is parked on a mutex that is never released (registerClient / unregisterClient wait for server.mu: a lock "
+                "taken on behalf of an earlier request was not given back)")
     if "sync.Mutex.Lock" in text:
         return F47_MSG
     if "serve:chan_send" in text or ("chan_send" in text and ("connectWithTimeOut" in text or "sendErrConnack" in text)):
